@@ -226,7 +226,7 @@ fn unary_case(op: u8, operand: u8) {
     core::mem::forget(program);
 }
 
-// @harness id=c02_unary_ops props=C02,C06,C01:thorough tier=quick cap=1500 unwindset=9Evaluator3run@first:1
+// @harness id=c02_unary_ops props=C02,C06:thorough,C01:thorough tier=quick cap=1500 unwindset=9Evaluator3run@first:1
 // @desc one iteration of the real Evaluator::run on UnaryOp per case: -x and +x on any finite number (bit-exact), ~x on any finite number (defined exactly on the safe-integer range after truncation, value -x-1, otherwise an error), !b on any boolean, and the InvalidUnaryOpType error for - on a boolean, ! on a number, ~ on null, + on null
 // @bound one loop iteration per case; 8 cases; all finite doubles
 // @funcs Evaluator::run (arm State::UnaryOp), Evaluator::safe_f64_to_i64
@@ -418,7 +418,7 @@ fn index_type_error_case(obj: u8, idx: u8) {
     core::mem::forget(arr);
 }
 
-// @harness id=c02_index_array_items props=C02,C04,C01:thorough tier=quick cap=1500 unwindset=9Evaluator3run@first:1
+// @harness id=c02_index_array_items props=C02:thorough,C04:thorough,C01:thorough tier=thorough cap=1500 unwindset=9Evaluator3run@first:1
 // @desc one iteration of the real Evaluator::run on Index over a 3-element array: index 0 (and -0, which is the same number) of an evaluated array gives that item's value directly; index 1 of a pending array forces exactly that item - no other - inside a counted ArrayItem frame
 // @bound one loop iteration per case; arrays of length 3
 // @funcs Evaluator::run (arm State::Index), Evaluator::want_thunk_direct, float::try_to_usize_exact
@@ -435,7 +435,21 @@ fn c02_index_array_items() {
 }
 }
 
-// @harness id=c02_index_array_errors props=C02,C01:thorough tier=quick cap=1500 unwindset=9Evaluator3run@first:1
+// @harness id=c02_index_array_zero props=C02,C04,C01:thorough tier=thorough cap=1500 unwindset=9Evaluator3run@first:1
+// @desc one iteration of the real Evaluator::run on Index over an evaluated 3-element array with index 0 and with index -0 (the same number): both give item 0's value directly, nothing is scheduled
+// @bound one loop iteration per case; arrays of length 3
+// @funcs Evaluator::run (arm State::Index), Evaluator::want_thunk_direct, float::try_to_usize_exact
+run_stubs_all! {
+#[kani::proof]
+#[kani::unwind(5)]
+fn c02_index_array_zero() {
+    index_array_case(true, 0);
+    index_array_case(true, 7);
+    kani::cover!(true, "index -0 selects item 0");
+}
+}
+
+// @harness id=c02_index_array_errors props=C02,C01:thorough tier=thorough cap=1500 unwindset=9Evaluator3run@first:1
 // @desc one iteration of the real Evaluator::run on Index per case: index 3 on a 3-element array is NumericIndexOutOfRange with length 3; index -1 is NumericIndexIsNotValid; array[null] and number[string] are the specific type errors (the classification of ALL doubles by float::try_to_usize_exact is decided by c01_float_to_int_contracts)
 // @bound one loop iteration per case
 // @funcs Evaluator::run (arm State::Index), float::try_to_usize_exact
@@ -683,7 +697,7 @@ fn binding_case<const NPOS: usize, const NNAMED: usize>() {
     core::mem::forget((func, pos, named_all));
 }
 
-// @harness id=c02_param_binding_p0_n2 props=C02 tier=quick cap=1500
+// @harness id=c02_param_binding_p0_n2 props=C02 tier=thorough cap=1500 mem=40
 // @desc the real parameter binder (entered through check_thunk_args_and_execute_call, as used by top-level arguments and std.* callbacks; the same generic routine binds call expressions) on f(x, y, z=default): result slot i holds the i-th positional argument, else the named argument of that parameter's name, else z's default; the errors TooManyCallArgs / UnknownCallParam / RepeatedCallParam (named twice, or named after being given positionally) / CallParamNotBound occur exactly when the binding rule says so. Arguments carry distinct values so a swap between slots is observable. This case: no positional, two named arguments with ANY names
 // @bound 3 parameters (one default); 0 positional and 2 named argument(s), the names symbolic among x, y, z and a non-parameter
 // @funcs Evaluator::check_thunk_args_and_execute_call, Evaluator::check_call_thunk_args, Evaluator::check_call_args_generic, FuncData::new
@@ -698,7 +712,7 @@ fn c02_param_binding_p0_n2() {
 }
 }
 
-// @harness id=c02_param_binding_p1_n2 props=C02 tier=quick cap=1500
+// @harness id=c02_param_binding_p1_n2 props=C02 tier=thorough cap=1500 mem=40
 // @desc the real parameter binder (entered through check_thunk_args_and_execute_call, as used by top-level arguments and std.* callbacks; the same generic routine binds call expressions) on f(x, y, z=default): result slot i holds the i-th positional argument, else the named argument of that parameter's name, else z's default; the errors TooManyCallArgs / UnknownCallParam / RepeatedCallParam (named twice, or named after being given positionally) / CallParamNotBound occur exactly when the binding rule says so. Arguments carry distinct values so a swap between slots is observable. This case: one positional, two named arguments with ANY names
 // @bound 3 parameters (one default); 1 positional and 2 named argument(s), the names symbolic among x, y, z and a non-parameter
 // @funcs Evaluator::check_thunk_args_and_execute_call, Evaluator::check_call_thunk_args, Evaluator::check_call_args_generic, FuncData::new
@@ -713,7 +727,7 @@ fn c02_param_binding_p1_n2() {
 }
 }
 
-// @harness id=c02_param_binding_p2_n1 props=C02 tier=quick cap=1500
+// @harness id=c02_param_binding_p2_n1 props=C02 tier=thorough cap=1500 mem=40
 // @desc the real parameter binder (entered through check_thunk_args_and_execute_call, as used by top-level arguments and std.* callbacks; the same generic routine binds call expressions) on f(x, y, z=default): result slot i holds the i-th positional argument, else the named argument of that parameter's name, else z's default; the errors TooManyCallArgs / UnknownCallParam / RepeatedCallParam (named twice, or named after being given positionally) / CallParamNotBound occur exactly when the binding rule says so. Arguments carry distinct values so a swap between slots is observable. This case: two positional, one named argument with ANY name
 // @bound 3 parameters (one default); 2 positional and 1 named argument(s), the names symbolic among x, y, z and a non-parameter
 // @funcs Evaluator::check_thunk_args_and_execute_call, Evaluator::check_call_thunk_args, Evaluator::check_call_args_generic, FuncData::new
@@ -807,7 +821,7 @@ fn binding_defaults_case() {
     core::mem::forget((func, named));
 }
 
-// @harness id=c02_param_binding_defaults props=C02 tier=quick cap=1500
+// @harness id=c02_param_binding_defaults props=C02 tier=thorough cap=1500 mem=40
 // @desc the real parameter binder on f(a = D1, b, c = D2) (two DIFFERENT default expressions around a required parameter) called with one named argument of ANY name: naming b binds a to D1, b to the argument and c to D2 - each parameter gets its OWN default even when a named argument sits between two defaulted parameters; naming a or c leaves b unbound (CallParamNotBound); a non-parameter name is UnknownCallParam
 // @bound 3 parameters, two defaults; one named argument with a symbolic name
 // @funcs Evaluator::check_thunk_args_and_execute_call, Evaluator::check_call_thunk_args, Evaluator::check_call_args_generic, Program::new_pending_expr_thunk
@@ -821,7 +835,7 @@ fn c02_param_binding_defaults() {
 }
 }
 
-// @harness id=c02_param_binding_positional props=C02 tier=quick cap=1500
+// @harness id=c02_param_binding_positional props=C02 tier=thorough cap=1500 mem=40
 // @desc as c02_param_binding_p0_n2 for purely positional calls: 2 arguments (z takes its default), 3 arguments (fast path), 4 arguments (TooManyCallArgs), 1 argument (CallParamNotBound for y), 0 arguments
 // @bound 3 parameters (one default); positional 0..4
 // @funcs Evaluator::check_thunk_args_and_execute_call, Evaluator::check_call_thunk_args, Evaluator::check_call_args_generic
@@ -842,7 +856,7 @@ fn c02_param_binding_positional() {
 }
 }
 
-// @harness id=c02_run_must_fail props=C02,C18 tier=quick cap=900 unwindset=9Evaluator3run@first:1 expect=fail
+// @harness id=c02_run_must_fail props=C02:thorough,C18 tier=quick cap=900 unwindset=9Evaluator3run@first:1 expect=fail
 // @desc vacuity twin of the C02 run-step harnesses
 run_stubs_all! {
 #[kani::proof]
@@ -986,7 +1000,7 @@ fn if_spec_case(ok: bool) {
     core::mem::forget((_xs, xt, env));
 }
 
-// @harness id=c02_comprehension_for props=C02 tier=quick cap=1500 unwindset=9Evaluator3run@first:1
+// @harness id=c02_comprehension_for props=C02 tier=thorough cap=1500 unwindset=9Evaluator3run@first:1
 // @desc one iteration of the real Evaluator::run per case on the bookkeeping of `[e for x in A for y in B]`: GotInitCompSpec binds x to the elements of A in order, unevaluated (non-array: ForSpecValueIsNotArray); GotForSpec combines every outer binding with the elements of the array computed FOR THAT binding, outer binding first and inner element varying fastest (so the result order is that of nested loops, and B may depend on x); a non-array for any binding is an error
 // @bound one loop iteration per case; 2 outer bindings, arrays of 2 and 1 elements
 // @funcs Evaluator::run (arms State::GotInitCompSpec, State::GotForSpec)
@@ -1005,7 +1019,7 @@ fn c02_comprehension_for() {
 }
 }
 
-// @harness id=c02_comprehension_if props=C02 tier=quick cap=1500 unwindset=9Evaluator3run@first:1
+// @harness id=c02_comprehension_if props=C02 tier=thorough cap=1500 unwindset=9Evaluator3run@first:1
 // @desc one iteration of the real Evaluator::run on GotIfSpec with three bindings and ANY three condition values: exactly the bindings whose condition is true survive, in their original order; a non-boolean condition is CondIsNotBool
 // @bound one loop iteration per case; 3 bindings
 // @funcs Evaluator::run (arm State::GotIfSpec)
@@ -1082,7 +1096,7 @@ fn call_thunk_case(nargs: u8) {
     core::mem::forget((keep, func, def_env, a0, a1, a2));
 }
 
-// @harness id=c02_call_thunk_binds_defaults props=C02,C01,C04 tier=quick cap=1800 unwindset=9Evaluator3run@first:1
+// @harness id=c02_call_thunk_binds_defaults props=C02,C01,C04 tier=thorough cap=2700 mem=40 unwindset=9Evaluator3run@first:1
 // @desc one iteration of the real Evaluator::run on DoThunk of a DELAYED CALL (what std.map, std.mapWithIndex, std.mapWithKey, std.filterMap and std.makeArray put into their results) of `function(x, y = true) body` carrying ONE argument: the body is scheduled in an environment that binds x to the argument AND y to its default - never a body that runs with an unbound parameter (looking one up panics "variable not found")
 // @bound one loop iteration; a two-parameter function with one default; one argument
 // @funcs Evaluator::run (arm State::DoThunk, PendingThunk::Call), Evaluator::check_call_thunk_args, Evaluator::check_call_args_generic, Evaluator::execute_call, Evaluator::execute_normal_call, ThunkEnv::get_var
@@ -1097,7 +1111,7 @@ fn c02_call_thunk_binds_defaults() {
 }
 }
 
-// @harness id=c02_call_thunk_arity props=C02,C01 tier=thorough cap=2700 unwindset=9Evaluator3run@first:1
+// @harness id=c02_call_thunk_arity props=C02,C01 tier=thorough cap=2700 mem=40 unwindset=9Evaluator3run@first:1
 // @desc as c02_call_thunk_binds_defaults for the other argument counts: two arguments bind x and y; none fails with CallParamNotBound, three with TooManyCallArgs
 // @bound one loop iteration per case; 0, 2 and 3 arguments
 // @funcs Evaluator::run (arm State::DoThunk, PendingThunk::Call), Evaluator::check_call_thunk_args, Evaluator::check_call_args_generic, Evaluator::execute_call
